@@ -790,7 +790,9 @@ func (w *proxyWorld) buildRequest(q *PReq, last *Exch) (method string, wire []by
 				v = last.Hdr.Get("Last-Modified")
 			}
 		}
-		if v != "" && v[0] != '@' {
+		if v == "@empty" {
+			b.WriteString("If-Range: \r\n")
+		} else if v != "" && v[0] != '@' {
 			fmt.Fprintf(&b, "If-Range: %s\r\n", v)
 		}
 	}
